@@ -5,9 +5,13 @@
    instance of an abstract FAULT CLASS of that channel, then the reference request of the
    channel (the probe).  The specification is a monitor of the property, not a model of bumble:
 
-     Inject(c, d)    the attacking side sends one unit of class c; d says whether the bytes are a
+     Inject(c, d, t) the attacking side sends one unit of class c; d says whether the bytes are a
                      valid disconnect ("none" / "chan": of the channel under test / "conn": of
-                     the link) as read from the bytes by the harness' own classifier
+                     the link), t whether they are a well-formed step of the channel's reference
+                     transaction (Pairing Request, Prepare Write, PN / SABM for a new DLC, L2CAP
+                     Connection Request, AVDTP Set Configuration ...: from then on a transaction
+                     of the peer is in progress), both as read from the bytes by the harness' own
+                     classifier
      Done(o, s)      the stack has finished processing the unit: outcome o after s event-loop
                      steps.  Only o \in {"ok", "exc"} (nothing raised / an ordinary exception that
                      was raised and contained) and s <= StepBudget are behaviours of the
@@ -18,6 +22,10 @@
                      a valid disconnect of the link.  The implementation is free to close the
                      channel under test after garbage (a disconnect the peer is told about).
      Reopen(ok)      the peer opens the channel again with the ordinary procedure; must succeed.
+     Abandon         the peer abandons the transaction it has in progress in the ordinary way of
+                     the protocol (Pairing Failed, Execute Write "cancel", AVDTP Abort, L2CAP
+                     Disconnection Request for the half-open channel, RFCOMM DISC); the reference
+                     request is only made when no transaction of the peer is in progress.
      Probe           the reference request is sent (ATT Read Request, Pairing Request, L2CAP Echo
                      Request, LE credit based connection request for an unknown SPSM, SDP service
                      search, data on the open RFCOMM DLC, AT+CIND?, AVDTP Discover, AV/C PASS
@@ -25,7 +33,27 @@
                      plus an HCI command).  It starts with the unit delimiter of the channel
                      (START / SINGLE fragment, line terminator), so a partial unit left behind
                      by the garbage is over: mid' = FALSE.
-     ProbeReply(ok)  the answer observed; must be the correct one.
+     ProbeReply(ok)  the answer observed; must be the correct one.  The reference request is the
+                     COMPLETE transaction a user relies on, run to its end on the same connection
+                     (a pairing, legacy and Secure Connections, that ends with keys on both sides;
+                     a read AND a write AND a notification; a new DLC / L2CAP channel opened and
+                     data exchanged both ways; a full AT exchange; ...).
+
+   Fault classes: the generic mutations of valid PDUs, structured faults per protocol, and three
+   classes made of WELL-FORMED PDUs only:
+     "extreme"       a well-formed PDU one numeric field of which takes a boundary value (0, 1,
+                     max), enumerated from the field layout of the protocol's PDUs (RFCOMM PN frame
+                     size / credits / priority, L2CAP MTU / MPS / credits, ATT MTU, key sizes, SDP
+                     counts, AVDTP SEIDs and lengths ...), followed inside the same unit by NORMAL
+                     USE of the thing negotiated (the DLC is opened and written on both ways, the
+                     channel is used), so that a busy loop there is a busy loop of that unit;
+     "out_of_phase"  a well-formed PDU of the protocol sent when no transaction is in progress or
+                     in the wrong phase (every SMP command code, every response without a request,
+                     unsolicited UA / DM, AVDTP commands in the wrong stream state ...);
+     "advance"       (channels with a multi-step reference transaction, Phased) the next in-order
+                     step of that transaction, so that Stage = the number of "advance" units so
+                     far is the phase in which the following fault arrives: none / after the
+                     request / after the second step.
 
    TLC enumerates, per channel, every sequence of <= MaxFaults classes followed by the probe
    (hist is part of the state); the driver replays each with concrete bytes (seeded
@@ -51,7 +79,7 @@ AtClasses == {"valid", "trunc", "extend", "bitflip", "random", "at_quote", "at_e
 
 \* (zero-arity constant definitions: TLC evaluates them once)
 AttC    == Generic \cup {"att_unknown_op", "att_server_pdu"}
-SmpC    == Generic \cup {"smp_unknown_code", "smp_out_of_order"}
+SmpC    == Generic \cup {"smp_unknown_code", "smp_out_of_order"}  \* (Base sets; Structured / "advance" are added below)
 SigC    == Generic \cup {"sig_unknown_code", "sig_multi", "sig_unsolicited_rsp"}
 SdpC    == Generic \cup {"sdp_nest_deep", "sdp_size_lie", "sdp_bad_continuation", "chan_disc"}
 RfcommC == Generic \cup {"rfc_len_ea", "rfc_bad_fcs", "rfc_unknown_dlci", "rfc_mcc", "rfc_disc", "chan_disc"}
@@ -62,21 +90,41 @@ HciC    == {"evt_valid", "evt_trunc", "evt_extend", "evt_bitflip", "evt_badlen",
             "acl_cont_orphan", "acl_start_short", "acl_excess", "acl_start_start", "acl_bad_handle",
             "acl_bad_l2cap_len", "acl_pb_reserved", "iso_bad", "sco_bad", "pkt_unknown_type", "evt_disconnect"}
 
-ClassesOf(c) ==
-    CASE c = "att"         -> AttC
-      [] c = "smp"         -> SmpC
-      [] c = "le_sig"      -> SigC
-      [] c = "classic_sig" -> SigC
-      [] c = "sdp"         -> SdpC
-      [] c = "rfcomm"      -> RfcommC
-      [] c = "hfp_ag"      -> AtClasses
-      [] c = "hfp_hf"      -> AtClasses
-      [] c = "avdtp"       -> AvdtpC
-      [] c = "avctp"       -> AvctpC
-      [] c = "le_coc"      -> CocC
-      [] c = "hci"         -> HciC
+\* well-formed PDUs only: boundary values of numeric fields (then normal use of what was negotiated) /
+\* valid PDUs outside any transaction or in the wrong phase.  Every channel has both.
+Structured == {"extreme", "out_of_phase"}
 
-AllClasses == AttC \cup SmpC \cup SigC \cup SdpC \cup RfcommC \cup AtClasses \cup AvdtpC \cup AvctpC \cup CocC \cup HciC
+\* channels whose reference transaction has several steps: "advance" = its next in-order step
+Phased == {"att", "smp", "classic_sig", "rfcomm", "avdtp"}
+StructP == Structured \cup {"advance"}
+
+AttX    == AttC \cup StructP
+SmpX    == SmpC \cup StructP
+LeSigX  == SigC \cup Structured
+ClSigX  == SigC \cup StructP
+SdpX    == SdpC \cup Structured
+RfcommX == RfcommC \cup StructP
+AtX     == AtClasses \cup Structured
+AvdtpX  == AvdtpC \cup StructP
+AvctpX  == AvctpC \cup Structured
+CocX    == CocC \cup Structured
+HciX    == HciC \cup Structured
+
+ClassesOf(c) ==
+    CASE c = "att"         -> AttX
+      [] c = "smp"         -> SmpX
+      [] c = "le_sig"      -> LeSigX
+      [] c = "classic_sig" -> ClSigX
+      [] c = "sdp"         -> SdpX
+      [] c = "rfcomm"      -> RfcommX
+      [] c = "hfp_ag"      -> AtX
+      [] c = "hfp_hf"      -> AtX
+      [] c = "avdtp"       -> AvdtpX
+      [] c = "avctp"       -> AvctpX
+      [] c = "le_coc"      -> CocX
+      [] c = "hci"         -> HciX
+
+AllClasses == AttX \cup SmpX \cup LeSigX \cup ClSigX \cup SdpX \cup RfcommX \cup AtX \cup AvdtpX \cup AvctpX \cup CocX \cup HciX
 
 \* channels that cannot be closed (fixed CIDs, the HCI transport)
 Fixed == {"att", "smp", "le_sig", "classic_sig", "hci"}
@@ -94,7 +142,8 @@ DiscOf(ch, c) == IF c = "evt_disconnect" THEN {"conn"}
 NoDelimiter == {"le_coc"}
 
 \* classes that can leave a partial unit behind (assembler mid-message, unterminated line)
-CocPartial == CocC \ {"chan_disc", "coc_zero_credit_flood"}
+\* (an "extreme" unit on an LE credit based channel contains K-frames; "out_of_phase" is signalling only)
+CocPartial == CocX \ {"chan_disc", "coc_zero_credit_flood", "out_of_phase"}
 AnyPartial == {"trunc", "frag_drop", "frag_mislabel", "acl_start_short", "acl_start_start", "at_quote", "random",
                "bitflip", "extend", "badlen"}
 Partial(c) == IF c \in NoDelimiter THEN CocPartial ELSE AnyPartial
@@ -110,9 +159,14 @@ VARIABLES ch,       \* the channel under attack
           chanUp,   \* the channel under test is open
           mid,      \* a partial unit may be pending in an assembler / line buffer
           lost,     \* the link went away
-          discs     \* kinds of valid disconnect injected so far (history)
+          discs,    \* kinds of valid disconnect injected so far (history)
+          txn       \* a reference transaction started by the peer is in progress (not abandoned)
 
-vars == <<ch, hist, phase, cur, connUp, chanUp, mid, lost, discs>>
+vars == <<ch, hist, phase, cur, connUp, chanUp, mid, lost, discs, txn>>
+
+\* the phase in which the next fault arrives: how many in-order steps of the reference transaction
+\* have been made (0 = no transaction, 1 = after the request, 2 = after the second step ...)
+Stage == Cardinality({i \in DOMAIN hist : hist[i] = "advance"})
 
 TypeOK == /\ ch \in AllChannels
           /\ hist \in Seq(ClassesOf(ch)) /\ Len(hist) <= MaxFaults
@@ -120,17 +174,21 @@ TypeOK == /\ ch \in AllChannels
           /\ cur \in [cls : ClassesOf(ch) \cup {""}, disc : {"none", "chan", "conn"}]
           /\ connUp \in BOOLEAN /\ chanUp \in BOOLEAN /\ mid \in BOOLEAN /\ lost \in BOOLEAN
           /\ discs \subseteq {"chan", "conn"}
+          /\ txn \in BOOLEAN
 
 Init == /\ ch \in Channels
         /\ hist = <<>> /\ phase = "idle" /\ cur = [cls |-> "", disc |-> "none"]
-        /\ connUp = TRUE /\ chanUp = TRUE /\ mid = FALSE /\ lost = FALSE /\ discs = {}
+        /\ connUp = TRUE /\ chanUp = TRUE /\ mid = FALSE /\ lost = FALSE /\ discs = {} /\ txn = FALSE
 
-Inject(c, d) ==
+Inject(c, d, t) ==
     /\ phase = "idle" /\ connUp /\ chanUp
     /\ Len(hist) < MaxFaults
     /\ c \in ClassesOf(ch)
     /\ d \in {"none", "chan", "conn"}
     /\ (d = "chan") => ch \notin Fixed
+    /\ t \in BOOLEAN
+    /\ (c = "advance") => t             \* an in-order step of the reference transaction is one by construction
+    /\ txn' = (txn \/ t)
     /\ hist' = Append(hist, c)
     /\ cur' = [cls |-> c, disc |-> d]
     /\ mid' = (mid \/ c \in Partial(ch))
@@ -143,7 +201,7 @@ Done(o, s) ==
     /\ o \in Outcomes
     /\ s \in 0..StepBudget
     /\ phase' = "checked"
-    /\ UNCHANGED <<ch, hist, cur, connUp, chanUp, mid, lost, discs>>
+    /\ UNCHANGED <<ch, hist, cur, connUp, chanUp, mid, lost, discs, txn>>
 
 Alive(b, o) ==
     /\ phase = "checked"
@@ -154,6 +212,7 @@ Alive(b, o) ==
     /\ connUp' = b /\ chanUp' = o
     /\ lost' = (lost \/ ~b)
     /\ mid' = (mid /\ o)
+    /\ txn' = (txn /\ o)                \* a transaction does not outlive the channel it runs on
     /\ phase' = IF b THEN "idle" ELSE "end"
     /\ UNCHANGED <<ch, hist, cur, discs>>
 
@@ -161,32 +220,50 @@ Reopen(ok) ==
     /\ phase = "idle" /\ connUp
     /\ ~chanUp \/ (ch \in NoDelimiter /\ mid)
     /\ ok = TRUE
-    /\ chanUp' = TRUE /\ mid' = FALSE
+    /\ chanUp' = TRUE /\ mid' = FALSE /\ txn' = FALSE
     /\ UNCHANGED <<ch, hist, phase, cur, connUp, lost, discs>>
+
+\* the peer gives up the transaction it has in progress, by the ordinary procedure of the protocol
+Abandon ==
+    /\ phase = "idle" /\ connUp /\ chanUp /\ txn
+    /\ Len(hist) > 0
+    /\ txn' = FALSE
+    /\ UNCHANGED <<ch, hist, phase, cur, connUp, chanUp, mid, lost, discs>>
 
 Probe ==
     /\ phase = "idle" /\ connUp /\ chanUp
     /\ (ch \in NoDelimiter) => ~mid
+    /\ ~txn
     /\ phase' = "probing"
     /\ mid' = FALSE
-    /\ UNCHANGED <<ch, hist, cur, connUp, chanUp, lost, discs>>
+    /\ UNCHANGED <<ch, hist, cur, connUp, chanUp, lost, discs, txn>>
 
 ProbeReply(ok) ==
     /\ phase = "probing"
     /\ ok = TRUE
     /\ phase' = "end"
-    /\ UNCHANGED <<ch, hist, cur, connUp, chanUp, mid, lost, discs>>
+    /\ UNCHANGED <<ch, hist, cur, connUp, chanUp, mid, lost, discs, txn>>
 
 \* what the model explores: every class of the channel, with the disconnect kind it has by construction
-InjectClass(c, d) == c \in ClassesOf(ch) /\ d \in DiscOf(ch, c) /\ Inject(c, d)
+\* (a unit of another class is a step of the reference transaction only by accident: explored as FALSE, and as
+\* TRUE too for the classes made of well-formed PDUs when all observations are explored)
+StartsTxn(c) == IF c = "advance" THEN {TRUE}
+                ELSE IF ~Skeleton /\ ch \in Phased /\ c \in {"valid", "extreme", "out_of_phase"} THEN BOOLEAN
+                ELSE {FALSE}
+InjectClass(c, d) == c \in ClassesOf(ch) /\ d \in DiscOf(ch, c) /\ \E t \in StartsTxn(c) : Inject(c, d, t)
 
 DoneObs(o, s) == (Skeleton => (o = "ok" /\ s = 0)) /\ Done(o, s)
 AliveObs(b, o) == (Skeleton => (b = (cur.disc # "conn") /\ o = (b /\ cur.disc # "chan"))) /\ Alive(b, o)
 
-Next == \/ \E c \in AllClasses : \E d \in {"none", "chan", "conn"} : InjectClass(c, d)
+\* (quantifying over the classes of the channel only, and over the disconnect kind the class has: the same behaviours as
+\* over AllClasses x all kinds, InjectClass keeps only those, but TLC does not evaluate ~250 disabled disjuncts per state)
+InjectAny == \E c \in ClassesOf(ch) : \E d \in DiscOf(ch, c) : InjectClass(c, d)
+
+Next == \/ InjectAny
         \/ \E o \in Outcomes : \E s \in {0, StepBudget} : DoneObs(o, s)
         \/ \E b \in BOOLEAN : \E o \in BOOLEAN : AliveObs(b, o)
         \/ Reopen(TRUE)
+        \/ Abandon
         \/ Probe
         \/ ProbeReply(TRUE)
 
@@ -199,8 +276,9 @@ AliveUnlessDisconnected == lost => ("conn" \in discs)
 \* nothing is injected into, and no probe is sent on, a dead link or a closed channel
 OnlyOnOpenChannel == (phase \in {"busy", "probing"}) => (connUp /\ chanUp)
 
-\* the probe is never glued to a partial unit: the reference request starts a new unit
-ProbeStartsClean == (phase = "probing") => ~mid
+\* the probe is never glued to a partial unit, nor made inside a transaction the peer left open: the
+\* reference request starts a new unit and a new transaction
+ProbeStartsClean == (phase = "probing") => (~mid /\ ~txn)
 
 \* a behaviour that ends with the link up has had its reference request answered
 EndsAnswered == (phase = "end" /\ connUp) => (chanUp /\ ~mid)
